@@ -201,13 +201,18 @@ def make_projection(desc, region):
         ce = np.linspace(region[0], region[1], 101)[desc["kx"]]
         cn = np.linspace(region[2], region[3], 101)[desc["ky"]]
         return lambda e, n: ((e - ce) ** 2, -((n - cn) ** 2))
+    if kind == "bowl":
+        # non-separable: a paraboloid whose minimum sits on an interior sampling node, and the northing untouched
+        ce = np.linspace(region[0], region[1], 101)[desc["kx"]]
+        cn = np.linspace(region[2], region[3], 101)[desc["ky"]]
+        return lambda e, n: ((e - ce) ** 2 + (n - cn) ** 2, n)
     raise ValueError(kind)
 
 
 @st.composite
 def projection_cases(draw):
     region = draw(gen.regions(allow_degenerate=True, max_exp=4))
-    kind = draw(st.sampled_from(["affine", "cubic", "linear2d", "quad"]))
+    kind = draw(st.sampled_from(["affine", "cubic", "linear2d", "quad", "bowl"]))
     nz = st.one_of(gen.finite(0.01, 100), gen.finite(-100, -0.01))
     if kind == "affine":
         desc = dict(kind=kind, ax=draw(nz), bx=draw(gen.finite(-1e3, 1e3)), ay=draw(nz), by=draw(gen.finite(-1e3, 1e3)))
@@ -215,6 +220,8 @@ def projection_cases(draw):
         desc = dict(kind=kind, c=draw(gen.log_uniform(0, 8)))
     elif kind == "linear2d":
         desc = dict(kind=kind, m=[draw(gen.finite(-10, 10)) for _ in range(4)])
+    elif kind == "bowl":
+        desc = dict(kind=kind, kx=draw(st.integers(1, 99)), ky=draw(st.integers(1, 99)))
     else:
         desc = dict(kind=kind, kx=draw(st.integers(0, 100)), ky=draw(st.integers(0, 100)))
     return dict(region=region, projection=desc)
@@ -233,6 +240,9 @@ def check_projection(case, ctx):
     if desc["kind"] == "quad":
         # extremum (0) is reached exactly on a sampling node
         exp = [0.0, max(pe.max(), 0.0), min(pn.min(), -0.0), 0.0]
+    if desc["kind"] == "bowl":
+        # minimum 0 on an interior sampling node, maximum at a corner; northing unchanged
+        exp = [0.0, pe.max(), pn.min(), pn.max()]
     scale = max(abs(v) for v in exp) or 1.0
     for a, b, name in zip(got, exp, "WESN"):
         ctx.check(abs(float(a) - float(b)) <= 8 * EPS * scale,
